@@ -60,7 +60,11 @@ class pcomp(object):
         # Sort eigenvalues in descending order
         #
         ie = evals.argsort()[::-1]
-        self._evals = evals[ie]
+        #
+        # The matrix is positive semi-definite: a negative eigenvalue of a
+        # singular matrix is round-off and would give NaN coefficients.
+        #
+        self._evals = np.clip(evals[ie], 0.0, None)
         self._evecs = evecs[:, ie]
         #
         # If necessary, add code to fix the signs of the eigenvectors.
